@@ -7,10 +7,9 @@ package main
 // at the k-th request.
 
 import (
-	"crypto/sha256"
-	"encoding/hex"
 	"encoding/json"
 	"fmt"
+	"io"
 	"net/http"
 	"net/http/httptest"
 	"net/url"
@@ -31,12 +30,18 @@ type Vsys struct {
 }
 
 type HttpScn struct {
-	Type      string    `json:"type"` // PAN-OS | NSX
-	Hostname  string    `json:"hostname"`
-	HA        []HAState `json:"ha"` // per login attempt (keygen count); the last one repeats
+	Type     string `json:"type"` // PAN-OS | NSX
+	Hostname string `json:"hostname"`
+	// PAN-OS: one entry per member of the HA pair, in the order of the name list.  The k-th login
+	// (keygen) reaches member k and is given that member's own API key; every later request is
+	// answered by the member whose key it carries: its HA state and its own host name (Hostnames,
+	// "" / missing = Hostname).  So the two members of a pair can be told apart by what they answer
+	// and by what they receive.
+	HA        []HAState `json:"ha"`
+	Hostnames []string  `json:"hostnames"`
 	Vsys      []Vsys    `json:"vsys"`
-	Managed   []string  `json:"managed"` // PAN-OS: vsys that carry the rules/services of dev_rules
-	Dirty     bool      `json:"dirty"`   // PAN-OS: nodes of the candidate configuration carry dirtyId/admin/time
+	Managed   []string  `json:"managed"`    // PAN-OS: vsys that carry the rules/services of dev_rules
+	Dirty     bool      `json:"dirty"`      // PAN-OS: nodes of the candidate configuration carry dirtyId/admin/time
 	DevRules  []int     `json:"dev_rules"`  // PAN-OS: rules/services r<i> present in vsys1 of the device
 	DevSvcs   []int     `json:"dev_svcs"`   // NSX: services Netspoc-tcp_<80+i> present on the device
 	BadConfig bool      `json:"bad_config"` // the configuration answer is not decodable
@@ -57,6 +62,8 @@ type HttpReq struct {
 	Canon string `json:"canon"` // canonical form, as the Lean model prints its trace items
 	Kind  string `json:"kind"`  // read | change | save
 	Raw   string `json:"raw"`
+	// PAN-OS: which member of the pair the request was addressed to (by its API key); 0 = none / unknown key
+	Member int `json:"member"`
 }
 
 type httpSim struct {
@@ -67,10 +74,14 @@ type httpSim struct {
 	srv     *httptest.Server
 	journal []string
 	polls   int
+	st      *devState // what the requests did to the device (devstate.go)
+	hash0   string
 }
 
 func newHTTPSim(scn HttpScn) *httpSim {
 	s := &httpSim{scn: scn}
+	s.st = newHTTPState(scn.Type, jsonStr(scn.DevRules))
+	s.hash0 = s.st.hash()
 	s.srv = httptest.NewTLSServer(http.HandlerFunc(s.handle))
 	return s
 }
@@ -83,15 +94,11 @@ func (s *httpSim) Requests() []HttpReq {
 	return append([]HttpReq{}, s.reqs...)
 }
 
-func httpStateHash(initial string, reqs []HttpReq) string {
-	h := sha256.New()
-	h.Write([]byte(initial))
-	for _, r := range reqs {
-		if r.Kind == "change" || r.Kind == "save" {
-			h.Write([]byte("\x00" + r.Canon))
-		}
-	}
-	return hex.EncodeToString(h.Sum(nil))[:16]
+// state hashes of the device before the first and after the last request
+func (s *httpSim) hashes() (string, string) {
+	s.mu.Lock()
+	defer s.mu.Unlock()
+	return s.hash0, s.st.hash()
 }
 
 func panRuleXML(i int) string {
@@ -134,7 +141,7 @@ func nsxServiceJSON(i int) string {
 
 func (s *httpSim) record(canon, kind, raw string) int {
 	n := len(s.reqs)
-	s.reqs = append(s.reqs, HttpReq{n, canon, kind, raw})
+	s.reqs = append(s.reqs, HttpReq{N: n, Canon: canon, Kind: kind, Raw: raw})
 	if kind == "change" || kind == "save" {
 		s.journal = append(s.journal, canon)
 	}
@@ -212,18 +219,38 @@ func (s *httpSim) panos(w http.ResponseWriter, r *http.Request) {
 		kind = "change"
 	}
 	n := s.record(canon, kind, r.URL.RawQuery)
+	// which member is addressed: the one whose key the request carries
+	member := 0
+	if typ == "keygen" {
+		member = s.logins + 1
+	} else {
+		fmt.Sscanf(q.Get("key"), "LUFRPT-m%d=", &member)
+		if member > s.logins {
+			member = 0 // a key nobody was given
+		}
+	}
+	if nm := len(s.scn.HA); nm > 0 && member > nm {
+		member = nm // further logins reach the last member again
+	}
+	s.reqs[n].Member = member
 	if s.fault(n, w) {
 		return
 	}
+	s.st.panos(r.URL.RawQuery)
 	ok := func(body string) { w.Write([]byte(body)) }
+	if typ != "keygen" && member == 0 {
+		w.WriteHeader(403)
+		ok("<response status = 'error' code = '403'><result><msg>Invalid credentials.</msg></result></response>\n")
+		return
+	}
 	switch {
 	case typ == "keygen":
 		s.logins++
-		ok("<response status = 'success'>\n <result><key>LUFRPT=</key></result>\n</response>\n")
+		ok(fmt.Sprintf("<response status = 'success'>\n <result><key>LUFRPT-m%d=</key></result>\n</response>\n", s.logins))
 	case typ == "op" && strings.HasPrefix(q.Get("cmd"), "<show><high-availability>"):
 		ha := HAState{Enabled: "no"}
 		if len(s.scn.HA) > 0 {
-			i := s.logins - 1
+			i := member - 1
 			if i < 0 {
 				i = 0
 			}
@@ -276,13 +303,20 @@ func (s *httpSim) panos(w http.ResponseWriter, r *http.Request) {
 			vsys = "<vsys>" + strings.Join(vs, "") + "</vsys>"
 		}
 		ok("<response status = 'success'>\n <result>\n  <devices>\n   <entry name=\"localhost.localdomain\">\n" +
-			"    <deviceconfig><system><hostname>" + s.scn.Hostname + "</hostname></system></deviceconfig>\n" +
+			"    <deviceconfig><system><hostname>" + s.memberHostname(member) + "</hostname></system></deviceconfig>\n" +
 			vsys + "\n   </entry>\n  </devices>\n </result>\n</response>\n")
 	case typ == "commit":
 		ok("<response status=\"success\" code=\"19\"><result><job>6</job></result></response>\n")
 	default:
 		ok("<response status=\"success\" code=\"20\"></response>\n")
 	}
+}
+
+func (s *httpSim) memberHostname(member int) string {
+	if member >= 1 && member <= len(s.scn.Hostnames) && s.scn.Hostnames[member-1] != "" {
+		return s.scn.Hostnames[member-1]
+	}
+	return s.scn.Hostname
 }
 
 func (s *httpSim) nsx(w http.ResponseWriter, r *http.Request) {
@@ -305,6 +339,8 @@ func (s *httpSim) nsx(w http.ResponseWriter, r *http.Request) {
 	if s.fault(n, w) {
 		return
 	}
+	body, _ := io.ReadAll(r.Body)
+	s.st.nsx(r.Method, r.URL.RequestURI(), string(body))
 	switch {
 	case r.Method == "POST" && path == "/api/session/create":
 		s.logins++
